@@ -401,6 +401,20 @@ impl Check {
         self.infra.push(s);
     }
 
+    /// Transient environment trouble that does not invalidate the run (a failure that did not
+    /// reproduce on re-execution, a case skipped because the machine was too slow): recorded in the
+    /// evidence under `transient_notes`, printed, but the exit status stays a verdict.
+    pub fn note_transient(&mut self, s: impl Into<String>) {
+        let s = s.into();
+        eprintln!("NOTE (transient): {s}");
+        let v = self.extra.entry("transient_notes".to_string()).or_insert_with(|| serde_json::json!([]));
+        if let Some(a) = v.as_array_mut() {
+            if a.len() < 20 {
+                a.push(serde_json::Value::String(s));
+            }
+        }
+    }
+
     pub fn known(&self) -> &Known {
         &self.known
     }
